@@ -167,5 +167,5 @@ def run(c, facts, tier):
         if isinstance(f, list) and f and f[0] == "let*" and len(f) > 1 and f[1] == ["{self.definitions}"]:
             ok = True
     c.ob("C11.scope", "CompiledExpression::scheme", "definitions are the bindings of let* (sequential scope)", ok, "skeleton: %s" % [sexp.show(f)[:60] for f in forms])
-    c.floor("allocation paths", npaths, 32)
+    c.floor("allocation paths", npaths, 16)
     c.control("C11.fresh", mgr.idx_of("{v+1}") == ("v", 1) and mgr.idx_of("{v}") == ("v", 0), "affine index parser distinguishes v and v+1 (a bump-by-1 matcher would collide on v+1/v)")
